@@ -118,9 +118,14 @@ theorem start_nf (fl cfg s t op) : NF (start fl cfg s t op).2 := by
       · nf
       · split
         · split
-          · unfold osSendStep; split
-            · nf
-            · split <;> nf
+          · unfold osSendStart
+            split
+            · split
+              · unfold osSendFail; nf
+              · nf
+            · unfold osSendStep; split
+              · nf
+              · split <;> nf
           · nf
         · split
           · split
@@ -175,11 +180,19 @@ theorem start_nf (fl cfg s t op) : NF (start fl cfg s t op).2 := by
     simp only [start]; unfold startClone
     split <;> (try split) <;> nf
   | close h =>
-    simp only [start]; unfold startClose
-    split <;> (try split) <;> nf
+    simp only [start]
+    split
+    · unfold startCloseSb
+      split <;> (try split) <;> nf
+    · unfold startClose
+      split <;> (try split) <;> nf
   | drop h =>
-    simp only [start]; unfold startDrop
-    split <;> nf
+    simp only [start]
+    split
+    · unfold startDropSb
+      split <;> (try split) <;> nf
+    · unfold startDrop
+      split <;> nf
   | probe p h =>
     simp only [start]; unfold startProbe
     split <;> (try split) <;> nf
@@ -236,6 +249,20 @@ theorem micro_nf {fl cfg s p s' p'} (hs : (s', p') ∈ micro fl cfg s p) : NF p'
       split at hs
       · cases hs
       · exact osRecvStep_nf hs
+    | stg t k h sent rest =>
+      simp only [microDet] at hs
+      unfold stgStep at hs
+      split at hs
+      · split at hs <;> (cases hs; nf)
+      · split at hs
+        · split at hs
+          · split at hs <;> first | (cases hs; nf) | cases hs
+          · cases hs
+        · split at hs
+          · cases hs; nf
+          · split at hs
+            · cases hs; nf
+            · split at hs <;> first | (cases hs; nf) | cases hs
     | fin o => simp [microDet] at hs
   · split at hs
     · cases p with
